@@ -5,6 +5,8 @@ import SciVerif.Lemmas.C03e
 import SciVerif.Lemmas.C03i
 import SciVerif.Lemmas.C03m
 import SciVerif.Lemmas.C03p
+import SciVerif.Lemmas.C03q
+import SciVerif.Lemmas.C03r
 import SciVerif.Facts.C03F1
 import SciVerif.Facts.C03F2
 import SciVerif.Facts.C03F3
@@ -351,6 +353,100 @@ theorem C03_render_roundtrip_table (m : ExpMap) (b : BaseUnits) (txt : Str) (hm 
       b2.expression = b.expression ∧ magR b2.factors = magR b.factors :=
   render_roundtrip Gen.tables C03_fact_F1 C03_fact_F2 C03_fact_F3 C03_fact_F4 C03_fact_F7 m b txt hm hk hg hb ht
 
+/-! ## rejection at TEXT level (compound expressions) -/
+
+/-- REJECTION, TEXT LEVEL.  Take ANY text `lead ++ piece ++ post` where `piece` (no `(`, `*`, `/`
+    in it) is an operand of the top level standing before the first parenthesis: `lead` is empty
+    or any parenthesis-free text ending in `*` or `/`, and `post` is empty or begins with `(`, `*`
+    or `/` and is otherwise ARBITRARY (balanced or not).  If the atom parser refuses the stripped
+    operand text, then `UnitSolver(text)`, `BaseUnits(text)` and `Quantity(1,text)` all fail with
+    the same error, which is not the model's fuel error. -/
+theorem C03_reject_operand (T : Tables) (lead piece post : Str) (hl : leadOk lead)
+    (hp : tokPlain piece) (hpost : stopsAt post) (hne : strip piece ≠ [])
+    (hbad : ∃ e, atomParse T (strip piece) = .error e) :
+    ∃ err, unitSolver T (lead ++ piece ++ post) = .error err ∧ err ≠ .fuel ∧
+      baseUnitsOfText T (lead ++ piece ++ post) = .error err ∧
+      quantityOfText T (lead ++ piece ++ post) = .error err := by
+  obtain ⟨err, herr⟩ := unitSolver_bad_operand T lead piece post hl hp hpost hne hbad
+  refine ⟨err, herr, ?_, ?_, ?_⟩
+  · intro h; rw [h] at herr; exact unitSolver_no_fuel T _ herr
+  · unfold baseUnitsOfText; rw [herr]
+  · unfold quantityOfText; rw [herr]
+
+/-- … with the property's three reasons spelled out: an operand whose stripped text is not a number
+    literal, is not a system-unit text and cannot be split as admissible prefix ++ symbol ++
+    exponent characters (unknown symbol, prefix the unit does not admit, foreign characters in
+    front of a valid symbol) makes the whole compound text fail. -/
+theorem C03_reject_operand_unreadable (T : Tables) (hT : noBlankHead T) (lead piece post : Str)
+    (hl : leadOk lead) (hp : tokPlain piece) (hpost : stopsAt post) (hne : strip piece ≠ [])
+    (hnum : numberParts (strip piece) = none)
+    (hsys : ∀ n e, unitParse T (strip piece) ≠ .ok (.sys n, e))
+    (hno : ∀ p b x, strip piece = p ++ b ++ x → ¬ admissible T p b) :
+    ∃ err, unitSolver T (lead ++ piece ++ post) = .error err ∧ err ≠ .fuel ∧
+      baseUnitsOfText T (lead ++ piece ++ post) = .error err ∧
+      quantityOfText T (lead ++ piece ++ post) = .error err :=
+  C03_reject_operand T lead piece post hl hp hpost hne
+    (C03_reject_unreadable T hT (strip piece) hnum hsys hno)
+
+
+/-- REJECTION, TEXT LEVEL, ANY DEPTH.  `BadText T s` (Lemmas/C03q) describes, purely on the
+    characters of `s`, a text in which the scan of `UnitSolver` reaches an operand the atom parser
+    refuses — at the start, behind an operator sign, inside the first parenthesised group (to any
+    nesting depth, recursively) or behind it — or whose first `(` is never closed or whose first
+    group has several comma-separated arguments (also inside groups, recursively); what follows
+    the offending place is ARBITRARY.  Every such text is rejected by `UnitSolver(text)`,
+    `BaseUnits(text)` and `Quantity(1,text)` with the same error, which is not the fuel error. -/
+theorem C03_reject_text (T : Tables) (s : Str) (h : BadText T s) :
+    ∃ err, unitSolver T s = .error err ∧ err ≠ .fuel ∧
+      baseUnitsOfText T s = .error err ∧ quantityOfText T s = .error err := by
+  obtain ⟨err, herr⟩ := unitSolver_badText T s h
+  refine ⟨err, herr, ?_, ?_, ?_⟩
+  · intro h; rw [h] at herr; exact unitSolver_no_fuel T _ herr
+  · unfold baseUnitsOfText; rw [herr]
+  · unfold quantityOfText; rw [herr]
+
+/-- … with the property's reasons for the refusal of the operand (not a number literal, not a
+    system-unit text, no reading as admissible prefix ++ symbol ++ exponent characters) as the
+    hypothesis of the base case: such an operand, put behind `pre op` (any parenthesis-free `pre`)
+    and inside one more parenthesised group `pre2 ( … ) tail`, is rejected. -/
+theorem C03_reject_nested_unreadable (T : Tables) (hT : noBlankHead T) (piece post : Str)
+    (hp : tokPlain piece) (hpost : stopsAt post) (hne : strip piece ≠ [])
+    (hnum : numberParts (strip piece) = none)
+    (hsys : ∀ n e, unitParse T (strip piece) ≠ .ok (.sys n, e))
+    (hno : ∀ p b x, strip piece = p ++ b ++ x → ¬ admissible T p b)
+    (pre pre2 inner tail : Str) (op : Char) (hpre : '(' ∉ pre) (hop : op = '*' ∨ op = '/')
+    (hpre2 : '(' ∉ pre2) (hin : innerOk inner 1 = true) (hinner : strip inner = pre ++ op :: (piece ++ post)) :
+    ∃ err, unitSolver T (pre2 ++ '(' :: (inner ++ ')' :: tail)) = .error err ∧ err ≠ .fuel := by
+  have h0 : BadText T (piece ++ post) :=
+    .first piece post hp hpost hne (C03_reject_unreadable T hT (strip piece) hnum hsys hno)
+  have h1 : BadText T (strip inner) := hinner ▸ .afterOp pre op _ hpre hop h0
+  obtain ⟨err, h, hf, _⟩ := C03_reject_text T _ (.inPar pre2 inner tail hpre2 hin h1)
+  exact ⟨err, h, hf⟩
+
+/-- REJECTION OF A MISSING OPERAND, TEXT LEVEL.  (1) A text that begins (after blanks) with `*` or
+    `/` is rejected, whatever follows.  (2) A text `pre c rest` with `c` one of `*`, `/` behind any
+    parenthesis-free `pre`, where `rest` is blank (operator at the end) or is blanks followed by
+    another `*` or `/` and then ANYTHING (two operator signs in a row), is rejected.  In both cases
+    `UnitSolver`, `BaseUnits(text)` and `Quantity(1,text)` fail with the same, non-fuel error. -/
+theorem C03_reject_missing_operand (T : Tables) (c : Char) (hc : isOpChar c) :
+    (∀ (l rest : Str), blank l →
+      ∃ err, unitSolver T (l ++ c :: rest) = .error err ∧ err ≠ .fuel ∧
+        baseUnitsOfText T (l ++ c :: rest) = .error err ∧ quantityOfText T (l ++ c :: rest) = .error err) ∧
+    (∀ (pre rest : Str), '(' ∉ pre →
+      ((∃ mid c2 post, rest = mid ++ c2 :: post ∧ blank mid ∧ isOpChar c2) ∨ blank rest) →
+      ∃ err, unitSolver T (pre ++ c :: rest) = .error err ∧ err ≠ .fuel ∧
+        baseUnitsOfText T (pre ++ c :: rest) = .error err ∧ quantityOfText T (pre ++ c :: rest) = .error err) := by
+  have fin : ∀ s, (∃ err, unitSolver T s = .error err) →
+      ∃ err, unitSolver T s = .error err ∧ err ≠ .fuel ∧
+        baseUnitsOfText T s = .error err ∧ quantityOfText T s = .error err := by
+    rintro s ⟨err, herr⟩
+    refine ⟨err, herr, ?_, ?_, ?_⟩
+    · intro h; rw [h] at herr; exact unitSolver_no_fuel T _ herr
+    · unfold baseUnitsOfText; rw [herr]
+    · unfold quantityOfText; rw [herr]
+  exact ⟨fun l rest hl => fin _ (unitSolver_missing_left T l c rest hl hc),
+    fun pre rest hpre hshape => fin _ (unitSolver_missing_right T pre c rest hpre hc hshape)⟩
+
 /-! ## non-vacuity: concrete instances of the hypotheses and of the conclusions -/
 example : ∃ u ∈ Gen.tables.units, u.sym = ['m'] ∧ ['d','a'] ∈ [] :: admPrefixes Gen.tables u := by
   decide +kernel
@@ -387,5 +483,55 @@ example : (denote Gen.tables (.mul (.atom ['k'] ['g'] []) (.par (.div (.atom [] 
 example : (baseUnitsOfMap Gen.tables [(.std ['k'] ['m'], ⟨1, 2⟩), (.std [] ['s'], ⟨-2, 1⟩)]).map
     (fun b => b.dims.map Frac.value) =
     some [.pair 1 2, .int 0, .pair (-2) 1, .int 0, .int 0, .int 0, .int 0, .int 0] := by decide +kernel
+
+/-- `kg * xkm /(s` : the operand ` xkm ` (foreign character in front of `km`) after `kg *`,
+    followed by an unbalanced rest — hypotheses of `C03_reject_operand` on the shipped table -/
+example : ∃ err, unitSolver Gen.tables ("kg *".toList ++ " xkm ".toList ++ "/(s".toList) = .error err ∧
+    err ≠ .fuel ∧ baseUnitsOfText Gen.tables ("kg *".toList ++ " xkm ".toList ++ "/(s".toList) = .error err ∧
+    quantityOfText Gen.tables ("kg *".toList ++ " xkm ".toList ++ "/(s".toList) = .error err := by
+  refine C03_reject_operand Gen.tables _ _ _ (Or.inr ⟨"kg ".toList, '*', rfl, Or.inl rfl, by decide⟩)
+    (by intro c hc; simp at hc; rcases hc with rfl | rfl | rfl | rfl | rfl <;> decide)
+    (Or.inr ⟨'/', "(s".toList, rfl, Or.inr (Or.inr rfl)⟩) (by decide) ⟨.badPrefix, by decide +kernel⟩
+
+/-- `kg*(m/( xkm *s)) /J(` : the refused operand `xkm` two groups deep, an unbalanced rest behind
+    — an instance of `BadText` on the shipped table; and `m*(s` (group never closed) -/
+example : BadText Gen.tables ("kg*(m/( xkm *s)) /J(".toList) ∧ BadText Gen.tables ("m*(s".toList) := by
+  have hp : tokPlain "xkm ".toList := by
+    intro c hc; simp at hc; rcases hc with rfl | rfl | rfl | rfl <;> decide
+  have h0 : BadText Gen.tables ("xkm ".toList ++ "*s".toList) :=
+    .first _ _ hp (Or.inr ⟨'*', ['s'], rfl, Or.inr (Or.inl rfl)⟩) (by decide) ⟨.badPrefix, by decide +kernel⟩
+  have e1 : strip " xkm *s".toList = "xkm ".toList ++ "*s".toList := by decide
+  have h1 : BadText Gen.tables ([] ++ '(' :: (" xkm *s".toList ++ ')' :: [])) :=
+    .inPar [] _ [] (by simp) (by decide) (by rw [e1]; exact h0)
+  have h2 : BadText Gen.tables ("m".toList ++ '/' :: ([] ++ '(' :: (" xkm *s".toList ++ ')' :: []))) :=
+    .afterOp _ '/' _ (by decide) (Or.inr rfl) h1
+  have e2 : strip "m/( xkm *s)".toList =
+      "m".toList ++ '/' :: ([] ++ '(' :: (" xkm *s".toList ++ ')' :: [])) := by decide
+  have h3 : BadText Gen.tables ([] ++ '(' :: ("m/( xkm *s)".toList ++ ')' :: " /J(".toList)) :=
+    .inPar [] _ _ (by simp) (by decide) (by rw [e2]; exact h2)
+  have h4 : BadText Gen.tables
+      ("kg".toList ++ '*' :: ([] ++ '(' :: ("m/( xkm *s)".toList ++ ')' :: " /J(".toList))) :=
+    .afterOp _ '*' _ (by decide) (Or.inl rfl) h3
+  exact ⟨h4, .afterOp "m".toList '*' "(s".toList (by decide) (Or.inl rfl)
+    (.open [] "s".toList (by simp) (by decide))⟩
+
+/-- `kg* /m(`, `kg*m/ ` and ` *m)(` are instances of `C03_reject_missing_operand` -/
+example : (∃ err, unitSolver Gen.tables ("kg".toList ++ '*' :: (" ".toList ++ '/' :: "m(".toList)) = .error err) ∧
+    (∃ err, unitSolver Gen.tables ("kg*m".toList ++ '/' :: " ".toList) = .error err) ∧
+    (∃ err, unitSolver Gen.tables (" ".toList ++ '*' :: "m)(".toList) = .error err) := by
+  refine ⟨?_, ?_, ?_⟩
+  · obtain ⟨err, h, _⟩ := (C03_reject_missing_operand Gen.tables '*' (Or.inl rfl)).2 "kg".toList
+      (" ".toList ++ '/' :: "m(".toList) (by decide) (Or.inl ⟨" ".toList, '/', "m(".toList, rfl, by unfold blank; decide, Or.inr rfl⟩)
+    exact ⟨err, h⟩
+  · obtain ⟨err, h, _⟩ := (C03_reject_missing_operand Gen.tables '/' (Or.inr rfl)).2 "kg*m".toList
+      " ".toList (by decide) (Or.inr (by unfold blank; decide))
+    exact ⟨err, h⟩
+  · obtain ⟨err, h, _⟩ := (C03_reject_missing_operand Gen.tables '*' (Or.inl rfl)).1 " ".toList
+      "m)(".toList (by unfold blank; decide)
+    exact ⟨err, h⟩
+
+/-- `kg*(m,s)/J` (several arguments in a group) is an instance of `BadText` -/
+example : BadText Gen.tables ("kg*".toList ++ '(' :: ("m".toList ++ ',' :: "s)/J".toList)) :=
+  .comma _ _ _ (by decide) (by decide)
 
 end SciVerif.C03
